@@ -288,11 +288,15 @@ func shrink(t *testing.T, pr *props.Prop) {
 		os.Remove(tmp + ".out")
 		cmd := exec.Command(os.Args[0], "-test.run", "^TestWorker$")
 		cmd.Env = append(os.Environ(), "VERIF_MODE=replay", "VERIF_PROGRAM="+tmp, "VERIF_OUT="+tmp+".out")
-		err := cmd.Run()
+		cout, err := cmd.CombinedOutput()
 		b, rerr := os.ReadFile(tmp + ".out")
 		if rerr != nil || err != nil {
-			// child died: crash class
-			return &sim.Violation{Class: "crash", Op: -1, OpKind: want.OpKind, Detail: fmt.Sprint("child died: ", err)}
+			// child died: crash class (or a race report, which ends the process)
+			cls := "crash"
+			if strings.Contains(string(cout), "DATA RACE") {
+				cls = "data-race"
+			}
+			return &sim.Violation{Class: cls, Op: -1, OpKind: want.OpKind, Detail: want.Detail}
 		}
 		var ro replayOut
 		json.Unmarshal(b, &ro)
